@@ -538,8 +538,12 @@ def _check(chk, case, real, reply) -> None:
     mi, ms = dec_list(reply["impl"]), dec_list(reply["spec"])
     if len(mi) != len(mev) or len(ms) != len(mev):
         raise common.Infra(f"driver answered {len(mi)} observations for {len(mev)} model events")
-    impl = [expect[i] or _norm_model(mev[rmap[i]], mi[rmap[i]]) for i in range(len(evs))]
-    spec = [expect[i] or _norm_model(mev[rmap[i]], ms[rmap[i]]) for i in range(len(evs))]
+    def view(obs, i):
+        o = _norm_model(mev[rmap[i]], obs[rmap[i]])
+        # executemany whose second row cannot be bound: the bind error is what the caller sees – unless the first row already failed
+        return expect[i] if (expect[i] and o.startswith("n")) else o
+    impl = [view(mi, i) for i in range(len(evs))]
+    spec = [view(ms, i) for i in range(len(evs))]
     key = reply.get("finding", "-")
     env = reply.get("env") == "1"
     stmts = [e for e in evs if e[0] in "XMR"]
